@@ -15,11 +15,13 @@ import (
 // roNames are the groups of calls readOnly knows.  None of them is documented
 // to change the tree it is applied to: Clone "returns a deep copy", Get
 // "reports whether key is present", Len/IsEmpty/Min/Max/String report,
-// Cursor/Root "construct a cursor", cursor moves move the cursor, and the
-// iterators "visit" keys.
+// Cursor/Root "construct a cursor", cursor moves move the cursor, the
+// iterators "visit" keys, and Add of a present key "returns false without
+// modifying the tree".
 var roNames = []string{
 	"Clone", "Clone+edit the clone", "Get", "Len/IsEmpty", "Min/Max", "Cursor(key)+moves", "Root+moves",
 	"Inorder", "InorderAfter", "String", "Inorder stopped early", "Cursor.Inorder",
+	"Add(present key)",
 }
 
 func equalKeys(got, want []Key) bool { return slices.Equal(got, want) }
@@ -161,6 +163,23 @@ func (r *treeRun[T]) readOnly(in *inst[T], sel int) (what, msg string) {
 	if do(11) && n > 0 {
 		if got := collect(t.Root().Inorder, n+2); !equalKeys(got, ks) {
 			return what, r.errf("Root().Inorder lists %v, reference %v", brief(got), brief(ks))
+		}
+	}
+	if do(12) && n > 0 {
+		// "If key is already present, Add returns false without modifying the
+		// tree": every key of a small tree, eight spread keys of a large one
+		// (the deep ones of a tree that shrank without a rebuild among them)
+		stride := 1
+		if n > 40 {
+			stride = n / 8
+		}
+		for i := sel % stride; i < n; i += stride {
+			if t.Add(r.mk(Key{K: ks[i].K, Tag: -14})) {
+				return what, r.errf("Add(%v) = true although the key is present", ks[i])
+			}
+		}
+		if msg := r.checkGet(in, ks[sel%n].K); msg != "" {
+			return what, msg
 		}
 	}
 	return what, ""
